@@ -3,7 +3,7 @@
 (* on a real StorageManager.                                                  *)
 EXTENDS AkdStorage, Json
 
-CONSTANTS Export, MaxSteps, WithReads
+CONSTANTS Export, MaxSteps, WithReads, SplitReads
 
 VARIABLES path, steps
 
@@ -36,6 +36,8 @@ MCNext ==
   \/ RejectNext /\ Step([op |-> "reject_next"])
   \/ (HasCache /\ Flush /\ Step([op |-> "flush"]))
   \/ (HasCache /\ WithReads /\ \E k \in AllKeys : ReadFill({k}) /\ Step([op |-> "get", key |-> k]))
+  \/ (HasCache /\ SplitReads /\ Cardinality(inflight) < 2 /\ \E k \in AllKeys : GetIssue(k) /\ UNCHANGED <<path, steps>>)
+  \/ (HasCache /\ SplitReads /\ \E f \in inflight : GetComplete(f) /\ UNCHANGED <<path, steps>>)
   \/ (HasCache /\ \E b \in BOOLEAN : b # canClean /\ SetClean(b) /\ Step([op |-> "clean", on |-> b]))
   \/ (HasCache /\ Tick /\ cacheMap' # cacheMap /\ Step([op |-> "sleep"]))
   \/ (HasCache /\ Pressure /\ cacheMap' # cacheMap /\ UNCHANGED <<path, steps>>)
